@@ -215,6 +215,13 @@ def make_shards(cases, njobs):
     return shards
 
 
+def _short(d):
+    d = d.strip()
+    if d.startswith("Traceback") or len(d) > 500:
+        d = "... " + d[-420:]
+    return d.replace("\n", " | ")
+
+
 def load_known():
     p = os.path.join(VERIF, "known_findings.json")
     if not os.path.exists(p):
@@ -420,6 +427,7 @@ def run(prop, tier, seed, replay=None, jobs=None, keep=False):
         os.makedirs(rdir, exist_ok=True)
         byid = {c["id"]: c for c in cases}
         shown = set()
+        permech = {}
         for v in new[:200]:
             key = (v["mech"], v.get("case"))
             if key in shown:
@@ -432,8 +440,9 @@ def run(prop, tier, seed, replay=None, jobs=None, keep=False):
                 json.dump({"property": prop, "seed": seed, "tier": tier,
                            "cases": [byid[i] for i in grp if i in byid],
                            "violation": v, "observed": json.loads(jdump(obs.get(cid, {})))}, f, indent=1, default=_jdefault)
-            if len(shown) <= 25:
-                print("  witness: mech=%s case=%s %s" % (v["mech"], cid, str(v.get("detail", ""))[:400].replace("\n", " ")))
+            permech[v["mech"]] = permech.get(v["mech"], 0) + 1
+            if permech[v["mech"]] <= 3 and len(shown) <= 40:
+                print("  witness: mech=%s case=%s %s" % (v["mech"], cid, _short(str(v.get("detail", "")))))
                 print("VIOLATION property=%s replay=%s" % (prop, path))
         print("%d violation(s), %d distinct (mechanism, case)" % (len(new), len(shown)))
         return 1
